@@ -218,6 +218,10 @@ func Sleep(ms int)             { time.Sleep(time.Duration(ms) * time.Millisecond
 func Symbolic() bool           { return false }
 func LimitWrites(fd int, n int) {}
 
+// WantsWrite: is the descriptor registered for writable events? Epoll reports a socket writable only then.
+// (Model only: a native run cannot ask epoll for its interest list and answers yes.)
+func WantsWrite(fd int) bool { return true }
+
 // SetTicks: the next time.NewTicker channel is pre-loaded with n ticks (model only: a native run has real tickers).
 func SetTicks(n int) {}
 func Note(s string) {
